@@ -53,8 +53,21 @@ inline ScalarType gaussian_random()
 #endif
 }
 
+#ifdef TAPKEE_VERIF
+// verification hook: a process-global, seedable generator so that a shuffle can be replayed
+inline std::mt19937& verif_shuffle_generator()
+{
+    static std::mt19937 generator(5489u);
+    return generator;
+}
+#endif
+
 template <class RAI> inline void random_shuffle(RAI first, RAI last)
 {
+#ifdef TAPKEE_VERIF
+    std::shuffle(first, last, verif_shuffle_generator());
+    return;
+#endif
     std::random_device rng;
     std::mt19937 urng(rng());
     std::shuffle(first, last, urng);
